@@ -61,6 +61,9 @@ MUTANTS = [
     ('c14-status-escapes-live-object', 'C14', 'c14', 60, 'python/experiment/model/data.py',
      "            new_data['error-description'] = new_data['error-description'].encode('unicode_escape').decode('utf-8')\n        for key in sorted(new_data):\n            stream.write(\"%s=%s\\n\" % (key, new_data[key]))",
      "            self.data['error-description'] = self.data['error-description'].encode('unicode_escape').decode('utf-8')\n        for key in sorted(new_data):\n            stream.write(\"%s=%s\\n\" % (key, self.data[key]))"),
+    ('c05-condition-matched-by-name-only-unfixed', 'C05', 'c05', 100, 'python/experiment/model/graph.py',
+     "[c for c in all_looped_ids if int(c[0]) == cond_stage and c[1].split('#', 1)[1] == cond_name]",
+     "[c for c in all_looped_ids if c[1].split('#', 1)[1] == cond_name]"),
     ('c14-instance-description-written-in-place', 'C14', 'c14rt', 192, 'python/experiment/model/conf.py',
      "        temp_file = '%s.%s.tmp' % (instance_file, uuid.uuid4())\n", "        temp_file = instance_file\n"),
     ('c14-status-written-in-place', 'C14', 'c14rt', 192, 'python/experiment/model/data.py',
